@@ -339,6 +339,17 @@ class PointsTo:
                 continue
             if isinstance(s, ast.ClassDef):
                 self._walk_body(s.body, fn, mod, True)
+                # a class-level attribute is what self.<name> yields as long as no instance attribute hides it
+                for cs in s.body:
+                    if isinstance(cs, ast.Assign):
+                        for t in cs.targets:
+                            if isinstance(t, ast.Name):
+                                v = self.ev(cs.value, fn, mod, True)
+                                for k in v:
+                                    if self.sites[k].name is None or self.sites[k].name == t.id:
+                                        self.sites[k].name = '%s.%s' % (s.name, t.id)
+                                        self.sites[k].why = 'class-level attribute, shared by all instances'
+                                self.add(('field', t.id), v)
                 continue
             self._stmt(s, fn, mod, top)
             for field in ('body', 'orelse', 'finalbody'):
